@@ -76,4 +76,7 @@ def run(model, R):
     R.guard('LINKS', None, 'lattice', lindig_tpl.lattice_template, model, R, {'link': 'LINKS'})
     R.guard('LINKS', None, 'Lattice.__init__', lindig_tpl.init_template, model, R, {'link': 'LINKS'})
     R.guard('LINKS', None, 'Context.neighbors', context_neighbors, model, R)
+    # every derivation goes through the closures that Vectors._pair_with builds (C01's rules for them are a dependency)
+    from . import c01
+    R.guard('WIRING', None, '_pair_with closures', c01.closure_rules, model, R)
     return __doc__.strip()
